@@ -109,20 +109,17 @@ theorem i256_wrapping_mul (a b : I256) (ha : a.WF) (hb : b.WF) :
 /-- non-vacuity: both 64-bit halves set, product needs all four partial products -/
 example : mulx (2 ^ 128 - 1) (2 ^ 128 - 1) = (1, 2 ^ 128 - 2) := by decide
 
-/-- **`i256::checked_mul`, partial**: the unsigned magnitudes its overflow tests work on — the
-limbs of `wrapping_abs` with the high limb read as `u128` — are exactly `|a|` (also for `MIN`,
-where the magnitude `2^255` does not fit the signed type), the high limb is zero iff its `u128`
-reading is, and the sign masks `high >> 127` are all-ones exactly for negative operands.
-Together with `i256_mulx_exact` (the 128×128 product) these are the ingredients of
-`checked_mul`.  **Gap**: the composition (the four `checked_mul`/`checked_add` high-part tests,
-the conditional two's-complement negation and the final sign test) is *not* proved; it is
-covered by the correspondence run only (products straddling ±2^255, Decimal256 `mul`). -/
-theorem i256_checked_mul_ingredients_partial (a : I256) (ha : a.WF) :
-    a.wrappingAbs.lo < 2 ^ 128 ∧ asU128 a.wrappingAbs.hi < 2 ^ 128 ∧
-    ((asU128 a.wrappingAbs.hi * 2 ^ 128 + a.wrappingAbs.lo : Nat) : Int) = (if a.value < 0 then -a.value else a.value) ∧
-    (a.wrappingAbs.hi = 0 ↔ asU128 a.wrappingAbs.hi = 0) ∧
-    asU128 (a.hi >>> MUL_L_SIGN_SHIFT) = (if a.hi < 0 then 2 ^ 128 - 1 else 0) :=
-  ⟨(absU a ha).1, (absU a ha).2.1, (absU a ha).2.2.1, (absU a ha).2.2.2, sa_mask a.hi ⟨ha.2.1, ha.2.2⟩⟩
+/-- **`i256::checked_mul` is exact or reports overflow**: for all operands it returns `Some r`
+only with `r` denoting exactly `a · b`, and `None` iff the exact product is not representable
+(`−2^255 ≤ a·b < 2^255` fails) — never a wrapped value, no spurious overflow.  The proof goes
+through the code's blocks: zero short-cut, `wrapping_abs` magnitudes (`|MIN| = 2^255` read as
+unsigned), "both high parts non-zero", the `mulx` product with the `checked_mul`/`checked_add`
+high-part tests (`mulCore`: exact 256-bit product or ≥ 2^256), the conditional two's-complement
+negation (`signFix`) and the final sign test. -/
+theorem i256_checked_mul (a b : I256) (ha : a.WF) (hb : b.WF) :
+    (∀ r, a.checkedMul b = some r → r.WF ∧ r.value = a.value * b.value) ∧
+    (a.checkedMul b = none ↔ ¬ (-(2 ^ 255 : Int) ≤ a.value * b.value ∧ a.value * b.value < 2 ^ 255)) :=
+  checkedMul_spec a b ha hb
 
 example : I256.MIN.WF ∧ I256.MIN.wrappingAbs = I256.MIN ∧ I256.MIN.checkedMul I256.MINUS_ONE = none ∧
     I256.MIN.checkedMul I256.ONE = some I256.MIN :=
